@@ -101,4 +101,13 @@ META = {
    level="Each lemma is an obligation discharged on every run together with the kernel postconditions it is stated over (so a change to a "
          "kernel that breaks an invariance breaks the kernel's formula clause or the lemma). Bounded (labelled): end-to-end metamorphic runs.",
    note="Over the reals (S2); the optimum-level step relies on the solver model."),
+ "C20": dict(
+   technique="wiring contract over the mechanically extracted argparse option table: data-flow obligations on pygamma_cmd's AST (which option "
+             "reaches which parameter of which library call under which guard, in every output mode), plus the proved GammaResults contracts; "
+             "value equality by a bounded stand-in",
+   level="Every wiring obligation is re-derived from the current source on each run: alpha/beta/delta_empty/categorical choice reach the "
+         "combined dissimilarity (each parser choice of -d tested and mapped to its class), precision / sample count / sampler / fast reach "
+         "compute_gamma, the seed is set once before the first file, and print / csv / json modes read the same three quantities under the "
+         "same -c / -k guards. Bounded (labelled): the numbers themselves, by running the tool in-process against the API.",
+   note="argparse and the csv / json writers are trusted; no SMT back end is involved in the wiring obligations."),
 }
